@@ -2,38 +2,41 @@
    Property statements only: every theorem is closed by a lemma of Lemmas.v and followed by
    Print Assumptions. The model is Model.v (iproject = expr.Project with its memo,
    sproject = the projection the property asks for, server_respond / client_decode = the
-   generated server and client around a viewed result). *)
+   generated server and client around a viewed result). Nodes are (plain user type?, type,
+   view); attributes are leaves, result types, CollectionOf / ArrayOf / MapOf of result
+   types, plain user types holding any of these. *)
 From Views Require Import Model Lemmas.
 
 (* ---- projection (expr.Project) ---- *)
 
-(* Whatever the design (recursive, mutually recursive, any overrides), whenever expr.Project
-   returns a type, that type read back to ANY depth is the projection the property asks
-   for: at every node the attributes listed in the view, nested result types and collection
-   elements under their own view (override of the view entry, else the view meta of the type
-   attribute, else "default"). *)
+(* Whatever the design (recursive, mutually recursive, through collections, arrays, maps and
+   plain user types, any overrides and type-level view metas), whenever expr.Project returns
+   a type, that type read back to ANY depth is the projection the property asks for. *)
 Theorem project_attrs_exact e f t v tr :
-  iproject f e t v = Ok tr -> forall n, unfold n tr tr = sproject n e t v.
+  iproject f e t v = Ok tr -> forall n, unfold n tr tr = sproject n e (false, t, v).
 Proof. exact (iproject_exact e f t v tr). Qed.
 Print Assumptions project_attrs_exact.
 
-(* ... and that projection lists exactly the attributes of the selected view that the type
-   has, in the view's order; the required attributes are those of the type that the view
-   lists; each attribute is a leaf, or the projection of the nested type under its own view. *)
-Theorem projection_lists_view_attributes e n t v r w :
-  find_type e t = Some r -> find_view r v = Some w ->
-  exists fs, sproject (S n) e t v = PObj t v fs (req_in_view r w) /\
-             pnames fs = filter (has_attr r) (map fst (v_attrs w)) /\
+(* ... and that projection lists, at a result type under view v, exactly the attributes of v
+   that the type has, in the view's order (at a plain user type: all its attributes); the
+   required attributes are those of the type that the view lists; each attribute is a leaf
+   or — behind its collection / array / map wrapper — the projection of the node it points
+   to: a nested result type under the override of the view entry, else the view meta of the
+   type attribute, else "default"; a plain user type in full. *)
+Theorem projection_lists_view_attributes e n k r l :
+  entries e k = Some (r, l) ->
+  exists fs, sproject (S n) e k = pnode k fs (req_in (fst (fst k)) r l) /\
+             pnames fs = filter (has_attr r) (map fst l) /\
              forall a, pfind fs a =
-                       match view_entry (v_attrs w) a, find_attr r a with
-                       | Some ov, Some at_ => Some (child (sproject n e) at_ ov)
+                       match view_entry l a, find_attr r a with
+                       | Some ov, Some at_ => Some (child (sproject n e) (snd k) at_ ov)
                        | _, _ => None
                        end.
-Proof. exact (sproject_shape e n t v r w). Qed.
+Proof. exact (sproject_shape e n k r l). Qed.
 Print Assumptions projection_lists_view_attributes.
 
 (* The memoised recursion always ends: for ANY design (no hypothesis), a fuel computed from
-   the design (number of (type, view) pairs its views can name, + 2) is enough. *)
+   the design (kinds x type names referred to x view names in use, + 2) is enough. *)
 Theorem project_terminates e f t v : fuel_bound e <= f -> iproject f e t v <> Out.
 Proof. exact (iproject_not_out e f t v). Qed.
 Print Assumptions project_terminates.
@@ -43,8 +46,8 @@ Theorem project_fuel_irrelevant e f f' t v x :
 Proof. exact (iproject_fuel_mono e f f' t v x). Qed.
 Print Assumptions project_fuel_irrelevant.
 
-(* On a design the DSL accepts (nested views name views that exist) every defined view
-   projects; a view the type does not define never does. *)
+(* On a design the DSL accepts (nested views name views that exist, types exist, result
+   types define "default") every defined view projects; an undefined view never does. *)
 Theorem project_total e t v :
   closed e = true -> has_view e t v = true -> exists tr, iproject (fuel_bound e) e t v = Ok tr.
 Proof. exact (iproject_total e t v). Qed.
@@ -56,38 +59,74 @@ Print Assumptions project_undefined_view_fails.
 
 (* ---- what crosses the wire ---- *)
 
-(* every key of the rendered body, at every depth, is an attribute of the selected view *)
+(* every key of the rendered body, at every depth — through collections, arrays, maps and
+   plain user types —, is an attribute the selected view (resp. the nested view) lists *)
 Theorem render_only_view_attrs e t v x :
-  closed e = true -> has_view e t v = true -> conforms e t v (restrict e t v x) = true.
-Proof. intros Hc Hv. exact (proj1 (conforms_restrict e Hc) x t v Hv). Qed.
+  closed e = true -> has_view e t v = true -> conforms e (false, t, v) (restrict e (false, t, v) x) = true.
+Proof. intros Hc Hv. exact (proj1 (conforms_restrict e Hc) x (false, t, v) Hv). Qed.
 Print Assumptions render_only_view_attrs.
 
 (* and every attribute of the view that the value carries is rendered *)
-Theorem render_keeps_view_attrs e t v r w fs :
-  find_type e t = Some r -> find_view r v = Some w ->
-  exists fs', restrict e t v (VObj fs) = VObj fs' /\
-              keys fs' = filter (fun a => in_view w a && has_attr r a) (keys fs).
-Proof. exact (restrict_keys e t v r w fs). Qed.
+Theorem render_keeps_view_attrs e k r l fs :
+  entries e k = Some (r, l) ->
+  exists fs', restrict e k (VObj fs) = VObj fs' /\
+              keys fs' = filter (fun a => listed l a && has_attr r a) (keys fs).
+Proof. exact (restrict_keys e k r l fs). Qed.
 Print Assumptions render_keeps_view_attrs.
 
 (* ---- end to end ---- *)
 
 (* For a view the type defines (chosen by the service, "" meaning default, or fixed in the
-   design): the server answers with the restriction of the result to that view, labelled with
-   the view (no label when the view is fixed), and the client validates it and hands back
-   exactly that restriction: attributes outside the view unset, inside the view unchanged.
-   This is also server_unknown_view's _partial: its hypothesis is the negation of the
-   finding's signature. *)
-Theorem client_sees_restriction e c t fixed chosen x :
-  closed e = true -> has_view e t (selected fixed chosen) = true -> full_valid e t x = true ->
-  exists h, server_respond e c t fixed chosen x = SResp h (restrict e t (selected fixed chosen) x) /\
-            client_decode e t fixed h (restrict e t (selected fixed chosen) x)
-            = COk (restrict e t (selected fixed chosen) x).
+   design), in the envelope view_blind_safe (no array / map / plain-user-type attribute in the
+   design, or every view lists the required attributes of its type): the server answers with
+   the restriction of the result to that view, labelled with the view (no label when the view
+   is fixed), and the client validates it and hands back exactly that restriction: attributes
+   outside the view unset, inside the view unchanged. The two hypotheses are the negations of
+   the signatures of the two known findings (server-undefined-view-*, and
+   container-result-type-validated-under-default-view). *)
+Theorem client_sees_restriction_partial e c t fixed chosen x :
+  closed e = true -> view_blind_safe e = true ->
+  has_view e t (selected fixed chosen) = true -> full_valid e t x = true ->
+  exists h, server_respond e c t fixed chosen x = SResp h (restrict e (false, t, selected fixed chosen) x) /\
+            client_decode e t fixed h (restrict e (false, t, selected fixed chosen) x)
+            = COk (restrict e (false, t, selected fixed chosen) x).
 Proof. exact (exchange_restricts e c t fixed chosen x). Qed.
-Print Assumptions client_sees_restriction.
+Print Assumptions client_sees_restriction_partial.
+
+(* without the envelope the full statement fails: below an array (map, plain user type) the
+   generated client validates with the default-view validator and rebuilds with the generic
+   transform. An array rendered under a view that lacks a required attribute of the default
+   view is refused; when the default view itself lacks a required primitive the rebuild
+   dereferences nil. Known finding container-result-type-validated-under-default-view. *)
+Definition cx_inner (dflt : list (name * option name)) : rtype :=
+  mkRT [mkAttr "i1" (TLeaf true) None true; mkAttr "i2" (TLeaf true) None false]
+       [mkView "default" dflt; mkView "tiny" [("i2", None)]].
+Definition cx_outer : rtype :=
+  mkRT [mkAttr "a" (TLeaf true) None false; mkAttr "items" (TArr "Inner") None false]
+       [mkView "default" [("a", None); ("items", Some "tiny")]].
+Definition cx_val : val :=
+  VObj (VFCons "a" (VLeaf 1) (VFCons "items" (VList (VLCons (VObj (VFCons "i1" (VLeaf 2) (VFCons "i2" (VLeaf 3) VFNil))) VLNil)) VFNil)).
+
+Theorem client_sees_restriction_refuted :
+  (exists e, closed e = true /\ full_valid e "Outer" cx_val = true /\
+     exists b, server_respond e false "Outer" None "default" cx_val = SResp (Some "default") b /\
+               conforms e (false, "Outer", "default") b = true /\
+               client_decode e "Outer" None (Some "default") b = CErr) /\
+  (exists e, closed e = true /\ full_valid e "Outer" cx_val = true /\
+     exists b, server_respond e false "Outer" None "default" cx_val = SResp (Some "default") b /\
+               client_decode e "Outer" None (Some "default") b = CPanic).
+Proof.
+  split.
+  - exists [("Inner", cx_inner [("i1", None); ("i2", None)]); ("Outer", cx_outer)].
+    split; [reflexivity|]. split; [reflexivity|]. eexists. repeat split.
+  - exists [("Inner", cx_inner [("i2", None)]); ("Outer", cx_outer)].
+    split; [reflexivity|]. split; [reflexivity|]. eexists. repeat split.
+Qed.
+Print Assumptions client_sees_restriction_refuted.
 
 Theorem rebuild_render_is_restrict e t v x :
-  closed e = true -> has_view e t v = true -> rebuild e t v (restrict e t v x) = restrict e t v x.
+  closed e = true -> has_view e t v = true ->
+  rebuild e t v (restrict e (false, t, v) x) = restrict e (false, t, v) x.
 Proof. intros Hc Hv. exact (proj1 (rebuild_restrict e Hc) x t v Hv). Qed.
 Print Assumptions rebuild_render_is_restrict.
 
@@ -144,24 +183,28 @@ Print Assumptions server_unknown_view_always.
 Definition ex_inner : rtype :=
   mkRT [mkAttr "i1" (TLeaf true) None true; mkAttr "i2" (TLeaf true) None false; mkAttr "i3" (TLeaf false) None false]
        [mkView "default" [("i1", None); ("i2", None); ("i3", None)]; mkView "tiny" [("i1", None)]].
+Definition ex_wrap : rtype :=   (* a plain user type holding a result type with a type-level view *)
+  mkRT [mkAttr "x" (TRes "Inner") (Some "tiny") false; mkAttr "n" (TLeaf true) None false; mkAttr "w" (TUser "Wrap") None false] [].
 Definition ex_outer : rtype :=
   mkRT [mkAttr "a" (TLeaf true) None true; mkAttr "inner" (TRes "Inner") None false;
-        mkAttr "inner2" (TRes "Inner") None false; mkAttr "list" (TColl "Inner") None false]
-       [mkView "default" [("a", None); ("inner", None); ("inner2", None); ("list", None)];
-        mkView "tiny" [("a", None); ("inner", Some "tiny"); ("inner2", None)]].
-Definition ex_env : env := [("Inner", ex_inner); ("Outer", ex_outer)].
+        mkAttr "inner2" (TRes "Inner") (Some "tiny") false; mkAttr "list" (TColl "Inner") None false;
+        mkAttr "arr" (TArr "Inner") None false; mkAttr "m" (TMap "Inner") None false; mkAttr "wrap" (TUser "Wrap") None false]
+       [mkView "default" [("a", None); ("inner", None); ("inner2", None); ("list", None); ("arr", None); ("m", None); ("wrap", None)];
+        mkView "tiny" [("a", None); ("inner", Some "tiny"); ("inner2", Some "default"); ("arr", Some "tiny"); ("m", Some "tiny"); ("wrap", None)]].
+Definition ex_env : env := [("Inner", ex_inner); ("Wrap", ex_wrap); ("Outer", ex_outer)].
 
-(* two attributes of the same result type in one view, the first overridden with the
-   parent's own view name: the second is projected under "default" (the design on which the
-   memo used to be consulted under the parent's view) *)
-Example sibling_views :
+(* type-level view meta and per-view override combined; arrays, maps and a recursive plain
+   user type; the second attribute of the same result type (the design on which the memo used
+   to be consulted under the parent's view) *)
+Example containers_and_overrides :
   closed ex_env = true /\
   exists tr, iproject (fuel_bound ex_env) ex_env "Outer" "tiny" = Ok tr /\
-    unfold 2 tr tr =
+    unfold 3 tr tr =
+    let tiny := PObj "Inner" "tiny" (PCons "i1" PLeaf PNil) ["i1"] in
+    let dflt := PObj "Inner" "default" (PCons "i1" PLeaf (PCons "i2" PLeaf (PCons "i3" PLeaf PNil))) ["i1"] in
     PObj "Outer" "tiny"
-      (PCons "a" PLeaf
-        (PCons "inner" (PObj "Inner" "tiny" (PCons "i1" PLeaf PNil) ["i1"])
-          (PCons "inner2" (PObj "Inner" "default" (PCons "i1" PLeaf (PCons "i2" PLeaf (PCons "i3" PLeaf PNil))) ["i1"]) PNil)))
+      (PCons "a" PLeaf (PCons "inner" tiny (PCons "inner2" dflt (PCons "arr" (PArr tiny) (PCons "m" (PMap tiny)
+        (PCons "wrap" (PUser "Wrap" (PCons "x" tiny (PCons "n" PLeaf (PCons "w" (PUser "Wrap" (PCons "x" PCut (PCons "n" PLeaf (PCons "w" PCut PNil)))) PNil)))) PNil))))))
       ["a"].
 Proof. split; [reflexivity|]. eexists; split; vm_compute; reflexivity. Qed.
 
@@ -174,13 +217,16 @@ Definition ex_alt : env :=
 
 Example alternating_views_terminate :
   exists tr, iproject (fuel_bound ex_alt) ex_alt "T" "a" = Ok tr /\ find_def 0 tr <> None /\
-             unfold 3 tr tr = sproject 3 ex_alt "T" "a" /\ sproject 3 ex_alt "T" "a" <> PErr.
+             unfold 3 tr tr = sproject 3 ex_alt (false, "T", "a") /\ sproject 3 ex_alt (false, "T", "a") <> PErr.
 Proof. eexists; repeat split; try (vm_compute; reflexivity); vm_compute; discriminate. Qed.
 
 Example exchange_example :
   let x := VObj (VFCons "a" (VLeaf 1) (VFCons "inner" (VObj (VFCons "i1" (VLeaf 2) (VFCons "i2" (VLeaf 3) VFNil)))
-                (VFCons "list" (VList (VLCons (VObj (VFCons "i1" (VLeaf 4) VFNil)) VLNil)) VFNil))) in
+                (VFCons "list" (VList (VLCons (VObj (VFCons "i1" (VLeaf 4) VFNil)) VLNil))
+                (VFCons "arr" (VList (VLCons (VObj (VFCons "i1" (VLeaf 5) (VFCons "i2" (VLeaf 6) VFNil))) VLNil)) VFNil)))) in
   server_respond ex_env false "Outer" None "tiny" x
-    = SResp (Some "tiny") (VObj (VFCons "a" (VLeaf 1) (VFCons "inner" (VObj (VFCons "i1" (VLeaf 2) VFNil)) VFNil))) /\
+    = SResp (Some "tiny") (VObj (VFCons "a" (VLeaf 1) (VFCons "inner" (VObj (VFCons "i1" (VLeaf 2) VFNil))
+                                (VFCons "arr" (VList (VLCons (VObj (VFCons "i1" (VLeaf 5) VFNil)) VLNil)) VFNil)))) /\
+  view_blind_safe ex_env = true /\
   client_decode ex_env "Outer" None (Some "Tiny") x = CErr.
-Proof. split; vm_compute; reflexivity. Qed.
+Proof. repeat split; vm_compute; reflexivity. Qed.
